@@ -18,11 +18,11 @@ class Unreachable(RuntimeError):
 
 def f32_sqrt(v: ir.f32) -> ir.f32:
     """Square root"""
-    return math.sqrt(v)
+    return math.sqrt(v) if v >= 0 or math.isnan(v) else math.nan
 
 
 def f64_sqrt(v: ir.f64) -> ir.f64:
-    return math.sqrt(v)
+    return math.sqrt(v) if v >= 0 or math.isnan(v) else math.nan
 
 
 def i32_rotr(v: ir.i32, cnt: ir.i32) -> ir.i32:
